@@ -1096,6 +1096,25 @@ impl<'store, 'regex> FindRegexIter<'store, 'regex> {
                         )
                     }
                 }
+                if textselections.is_empty() {
+                    //none of the capture groups took part in this match (they are all optional):
+                    //fall back to the overall match (group 0), just like Match::begin() and Match::end() do,
+                    //so the match is not returned without any text selection
+                    let group = m.get(0).expect("overall match must exist");
+                    capturegroups.push(0);
+                    textselections.push(
+                        self.resource
+                            .textselection(&Offset::simple(
+                                self.resource
+                                    .utf8byte_to_charpos(self.beginbytepos + group.start())
+                                    .expect("byte to pos conversion must succeed"),
+                                self.resource
+                                    .utf8byte_to_charpos(self.beginbytepos + group.end())
+                                    .expect("byte to pos conversion must succeed"),
+                            ))
+                            .expect("textselection from offset must succeed"),
+                    )
+                }
                 FindRegexMatch {
                     expression: &self.expressions[expression_index],
                     expression_index,
